@@ -99,7 +99,8 @@ def main(tier, replay=None):
         if not res["ok"]:
             chk.machinery(f"TLC refuted {res['violated']} on Lattice.tla")
         # detailed balance of the length rule (and the refutation of the rule the code had before the fix, as a documented lead)
-        os.symlink(os.path.join(tlc.SPEC_DIR, "Moves.tla"), os.path.join(work, "Moves.tla"))
+        for mod in ("Moves.tla", "LatticeOps.tla"):
+            os.symlink(os.path.join(tlc.SPEC_DIR, mod), os.path.join(work, mod))
         with open(os.path.join(work, "MC_DB.tla"), "w") as fh:
             fh.write("---- MODULE MC_DB ----\nEXTENDS Moves\nMLs == {5}\n====\n")
         for inv, expect in (("LengthRuleBalanced", True), ("ImplementedRuleBalanced", False)):
